@@ -48,6 +48,12 @@ class Ledger:
 
 def _apply_rewrites(txt, rewrites, ledger, where):
     for rw in rewrites:
+        if rw.get("func"):
+            # a structural rule that a regular expression cannot express (needs brace matching): func(text) -> (text, [(before, after)])
+            txt, changes = rw["func"](txt)
+            for b, a in changes:
+                ledger.add(where=where, rule=rw.get("rule", "?"), before=b[:200], after=a[:200], why=rw.get("why", ""))
+            continue
         rx = re.compile(rw["re"], rw.get("flags", re.M | re.S))
         matches = list(rx.finditer(txt))
         exp = rw.get("expect")
